@@ -626,6 +626,13 @@ SUBS = [
 
 KNOWN_PREDICATES = {}
 
+# thorough tier: coverage-guided campaigns (atheris/libFuzzer mutating the bytes Hypothesis draws from)
+FUZZ = {
+    "subs": ['layout_long', 'binary', 'featuremap'],
+    "targets": ['cogent3.core.location'],
+    "execs_thorough": 40_000, "jobs_thorough": 4, "execs_quick": 1000, "jobs_quick": 2,
+}
+
 META = {
     "technique": "exhaustive enumeration of gap layouts x intervals plus Hypothesis-generated layouts, map pairs and feature maps, against a unique-residue gapped-string model",
     "level_text": "Every gap layout up to 7 columns (11 in the thorough tier) is enumerated with all in-range intervals, columns and residue indices and compared with a plain gapped string whose residues are unique, so a misplaced residue or gap is visible; construction routes, concatenation, scaling, reversal, gap merging/subtraction, segment joining and the FeatureMap algebra are compared with the same model on generated inputs. Exploration, not proof: layouts beyond the bound are sampled, not enumerated.",
